@@ -83,6 +83,25 @@ pub fn decompress_single(frame: &[u8]) -> Result<Vec<u8>, String> {
     Ok(out)
 }
 
+/// One shot reference decoding into a buffer of known capacity: no window buffer is needed, so frames
+/// declaring windows above 2 GiB can be decoded too
+pub fn decompress_oneshot(frame: &[u8], capacity: usize) -> Result<Vec<u8>, String> {
+    let mut out: Vec<u8> = Vec::with_capacity(capacity + 64);
+    let mut dctx = zstd_safe::DCtx::create();
+    dctx.set_parameter(zstd_safe::DParameter::WindowLogMax(31)).map_err(err)?;
+    dctx.decompress(&mut out, frame).map_err(err)?;
+    Ok(out)
+}
+
+/// streaming single frame decode, falling back to one shot decoding when the window is too large for streaming
+pub fn decompress_expecting(frame: &[u8], expected_len: usize) -> Result<Vec<u8>, String> {
+    match decompress_single(frame) {
+        Ok(d) => Ok(d),
+        Err(e) if e.contains("too much memory") => decompress_oneshot(frame, expected_len),
+        Err(e) => Err(e),
+    }
+}
+
 pub fn decompress_with_dict(frame: &[u8], dict: &[u8]) -> Result<Vec<u8>, String> {
     let mut d = zstd::stream::Decoder::with_dictionary(frame, dict).map_err(|e| e.to_string())?;
     d.window_log_max(31).map_err(|e| e.to_string())?;
